@@ -77,6 +77,18 @@ def strategy(tier):
     return _scn()
 
 
+def enumerated(tier):
+    """runs that write a reference-only generation into the outer history (create -sf on a file of a nested history, two
+    levels deep), an empty-folder generation, and a folder-mode run over three histories"""
+    tree = {"top.mov": "t", "reel": {"a.mov": "a", "inner": {"b.mov": "b"}}, "empty": {}}
+    pre = [{"op": "create", "root": "reel/inner", "formats": ["md5"], "flags": []}, {"op": "create", "root": "reel", "formats": ["md5"], "flags": []},
+           {"op": "create", "root": "", "formats": ["md5"], "flags": []}]
+    yield {"root": "R", "tree": tree, "spell": "abs", "steps": pre, "final": {"op": "create_sf", "root": "", "formats": ["md5"], "flags": [], "sf": ["reel/inner/b.mov"]}}
+    yield {"root": "R", "tree": tree, "spell": "abs", "steps": pre, "final": {"op": "create", "root": "", "formats": ["md5", "c4"], "flags": ["-n"]}}
+    yield {"root": "R", "tree": tree, "spell": "abs", "steps": pre[:1], "final": {"op": "create_sf", "root": "reel", "formats": ["xxh64"], "flags": [], "sf": ["reel/inner"]}}
+    yield {"root": "R", "tree": tree, "spell": "abs", "steps": pre, "final": {"op": "create", "root": "empty", "formats": ["md5"], "flags": ["-n"]}}
+
+
 def kf_first_generation_window(scn, v):
     """F8c: the crash hit the very first generation of a history, after its ascmhl folder was created and before its
     chain file was in place; later commands then stop with exit 32 (chain missing)."""
